@@ -286,6 +286,8 @@ def step (st : St) (line : String) : St × String :=
     -- the constructors `Writer::create(_with_algo)` / `SyncWriter::create(_with_algo)` are `open` with nothing declared
     -- chunks handed over with `write_vectored` are the same bytes in the same order
     | "wwritev" :: w :: ds => ["wwrite", w, "x" ++ String.join (ds.map (fun (d : String) => (d.drop 1).toString))]
+    -- reading to the end into a vector that already holds something returns the same bytes
+    | ["rreadall", rid, _] => ["rreadall", rid]
     | ["wcreate", f, c, w, k, a] => ["wopen", f, c, w, k, "algo=" ++ a, "size=-", "sri=-", "time=-", "meta=-", "raw=-"]
     -- a target named relative to another working directory is the file <dir>/<rel> below the scratch root
     | ["link_to_cd", f, c, k, rel, dir] => ["link_to", f, c, k, "rel:" ++ dir ++ "/" ++ rel]
